@@ -604,8 +604,8 @@ func TestC34(t *testing.T) {
 		"distinct by the Coq term of the case")
 	cs := vh.NewCases(e, "From V Require Import model.M_C34.\nOpen Scope Z_scope.", "case", "check_case", 60)
 
-	nBuild := e.Pick(350, 4000)
-	nWire := e.Pick(650, 8000)
+	nBuild := e.Pick(350, 3000)
+	nWire := e.Pick(650, 6000)
 
 	// ---- corpus: merge rules of addEntry, block/presence exclusion ----
 	g.fillPool(6)
